@@ -199,6 +199,14 @@ Qed.
 
 Notation ljstateR := (ljstate NumR).
 
+(* the number of molecules in the cell: one per occupied site and symmetry operation *)
+Definition lj_copies (st : ljstateR) : nat := (length (l_sites NumR st) * length (l_syms NumR st))%nat.
+
+Lemma lj_relative_length (st : ljstateR) : length (lj_relative NumR st) = lj_copies st.
+Proof.
+  unfold lj_relative, lj_copies. apply flat_map_length_const. intros s _. apply positions_length.
+Qed.
+
 Section Score.
   Variable st : ljstateR.
   Let shapes := map (fun p => map (lj_transform NumR p) (l_shape NumR st)) (lj_cartesian NumR st).
@@ -260,7 +268,7 @@ Section Score.
   Qed.
 
   Theorem lj_score_formula :
-    lj_score NumR rpowi st = Some (- (incell_sum + / 2 * image_sum) / INR (length (l_syms NumR st))).
+    lj_score NumR rpowi st = Some (- (incell_sum + / 2 * image_sum) / INR (lj_copies st)).
   Proof.
     unfold lj_score. rewrite lj_sum_formula. cbn [nopp ndiv nofZ NumR]. rewrite <- INR_IZR_INZ. reflexivity.
   Qed.
